@@ -12,7 +12,10 @@ import hashlib
 from .repo import Repo
 from .structural import register
 
-CONSUMERS = {"sum", "dict", "any", "all", "list", "tuple", "set", "sorted", "max", "min"}
+# consumers that exhaust their argument: a list comprehension and a generator expression are interchangeable for them.
+# any / all stop at the first decisive element - evaluating the rest eagerly can raise (StrictUndefined) or await more - so they
+# are NOT in this set (the loop form `for x in ..: if ..: return True` is related to any(..) by the separate `any-to-loop` lemma)
+CONSUMERS = {"sum", "dict", "list", "tuple", "set", "sorted", "max", "min"}
 
 LEMMAS = {
     "erase": "strip async/await, `async for/with`, and the `_async` suffix of callee names (callee twins assumed equal: co-induction on evaluation depth)",
